@@ -665,7 +665,7 @@ for _site in (("nfc.tag.tt1.Type1Tag.read_segment", "raise ValueError('invalid s
     triage.add('C16', 'C16-R1', key('ValueError', 'raised in ' + _site[0], _site[1]), _site[2], _site[3])
 
 MUTANTS = [
-    ('add-crc-a-in-place', 'nfc.clf.device', "        return data + bytearray([crc & 0xff, crc >> 8])", "        data += bytearray([crc & 0xff, crc >> 8])\n        return data", 'C16-R3'),
+    ('add-crc-a-in-place', 'nfc.clf.device', "        return data + bytearray([crc & 0xff, crc >> 8])", "        data += bytearray([crc & 0xff, crc >> 8])\n        return data", 'C16-R3', 'all'),
     ('tt3-format-retries-write', 'nfc.tag.tt3', """            except Type3TagCommandError:
                 nbw -= 1
                 break""", """            except Type3TagCommandError:
